@@ -374,15 +374,43 @@ func rulesC17(c *Ctx) {
 	// ------------------------------------------------------------------ C17.e ACL shape
 	c.Rule("C17.e", "Queue.CheckSubmitAccess = submit ACL or admin ACL of this queue, else the parent's answer; ACL.CheckAccess = all allowed, or the user, or any of the user's groups")
 	if fn := c.MustFunc("C17.e", "objects.Queue.CheckSubmitAccess"); fn != nil {
-		src := p.funcSrcContainsAll(fn)
-		c.Check("C17.e", "submit and admin ACL both consulted", fn.Decl, strings.Contains(src, "sq.submitACL.CheckAccess(user) || sq.adminACL.CheckAccess(user)"), "CheckSubmitAccess no longer evaluates submitACL.CheckAccess(user) || adminACL.CheckAccess(user)")
-		rec := false
+		// the local answer: submitACL.CheckAccess(user) || adminACL.CheckAccess(user) of this queue (either order,
+		// directly or through a private helper that only locks around it)
+		isLocalACLs := func(t Term) bool {
+			for _, ct := range p.chain(t) {
+				b, ok := unparen(ct.E).(*ast.BinaryExpr)
+				if !ok || b.Op.String() != "||" {
+					continue
+				}
+				seen := map[string]bool{}
+				for _, side := range []ast.Expr{b.X, b.Y} {
+					cl, isC := unparen(side).(*ast.CallExpr)
+					if !isC || !p.IsCall(cl, "security.ACL.CheckAccess") || Recv(cl) == nil {
+						continue
+					}
+					for _, f := range []string{"submitACL", "adminACL"} {
+						if _, isF := p.fieldSel(Recv(cl), "objects.Queue."+f); isF {
+							seen[f] = true
+						}
+					}
+				}
+				if seen["submitACL"] && seen["adminACL"] {
+					return true
+				}
+			}
+			return false
+		}
+		rec, both := false, false
 		for _, call := range p.callsIn(fn, "objects.Queue.CheckSubmitAccess") {
 			st := p.StateAt(fn, call)
-			if p.recvField(fn, Recv(call), "objects.Queue.parent") && p.Holds(st, p.BoolAtom(false, func(t Term) bool { return p.Src(t.E) == "allow" })) {
-				rec = true
+			if !p.recvField(fn, Recv(call), "objects.Queue.parent") {
+				continue
+			}
+			if p.Holds(st, func(a Atom) bool { return !a.Val && isLocalACLs(a.term(a.E)) }) {
+				rec, both = true, true
 			}
 		}
+		c.Check("C17.e", "submit and admin ACL both consulted", fn.Decl, both, "CheckSubmitAccess no longer decides locally on submitACL.CheckAccess(user) || adminACL.CheckAccess(user) before asking the parent")
 		c.Check("C17.e", "denied locally => ask the parent", fn.Decl, rec, "CheckSubmitAccess no longer recurses to sq.parent when access is not granted locally")
 	}
 	if fn := c.MustFunc("C17.e", "security.ACL.CheckAccess"); fn != nil {
